@@ -30,12 +30,20 @@ func init() { drivers["C16"] = driver{"C16", runC16} }
 // Model/Emitter.v) and free runs with random pacing (comparison with the envelope of the model).
 // Part A: real stores; a bus subscriber and two legacy channel subscribers per store query
 // the store from inside the subscriber upon every write / replicated event.
+// Part C (c16conc.go): local writes running concurrently with the merge of replicated batches
+// on one key-value / document store, every thread released one step at a time.
 func runC16(r *Run) error {
 	defer closeEnv()
 	if err := c16Emitter(r); err != nil {
 		return err
 	}
-	return c16Stores(r)
+	if err := c16Stores(r); err != nil {
+		return err
+	}
+	if err := c16FreeWriters(r); err != nil {
+		return err
+	}
+	return c16Conc(r)
 }
 
 // ---------------------------------------------------------------------------------------
@@ -1031,6 +1039,107 @@ func c16Stores(r *Run) error {
 		if restricted {
 			r.Count("restricted-writers")
 		}
+		s.Close()
+	}
+	return nil
+}
+
+// ---------------------------------------------------------------------------------------
+// Part D: free-running concurrent writers on one store (no schedule is forced, so writers
+// really queue up on the store's write lock).  A bus subscriber that keeps up queries the
+// store upon every write event.  Whatever the interleaving, the property demands exactly one
+// write event per returned entry, each visible when received (C16_store_events_never_ahead /
+// _exactly_once quantify over every schedule), so no outcome of the race can be a false alarm.
+// ---------------------------------------------------------------------------------------
+func c16FreeWriters(r *Run) error {
+	runs := 4
+	if r.Tier == "thorough" {
+		runs = 24
+	}
+	ctx := context.Background()
+	for ri := 0; ri < runs; ri++ {
+		typ := []string{"keyvalue", "eventlog"}[ri%2]
+		s, err := NewScen(1, typ, nil)
+		if err != nil {
+			return err
+		}
+		st := s.Stores[0]
+		sub, err := st.EventBus().Subscribe([]interface{}{new(stores.EventWrite)}, eventbus.BufSize(8192))
+		if err != nil {
+			return err
+		}
+		obs := &evObserver{}
+		stop := make(chan struct{})
+		var swg sync.WaitGroup
+		swg.Add(1)
+		go func() {
+			defer swg.Done()
+			for {
+				select {
+				case e, ok := <-sub.Out():
+					if !ok {
+						return
+					}
+					if x := observeEvent(st, e); x != nil {
+						obs.add(*x)
+					}
+				case <-stop:
+					return
+				}
+			}
+		}()
+		nw := 2 + r.Rng.Intn(5)
+		per := 3 + r.Rng.Intn(6)
+		var mu sync.Mutex
+		var returned []string
+		var wg sync.WaitGroup
+		for w := 0; w < nw; w++ {
+			wg.Add(1)
+			go func(w int) {
+				defer wg.Done()
+				for k := 0; k < per; k++ {
+					var e ipfslog.Entry
+					var err error
+					switch x := st.(type) {
+					case iface.KeyValueStore:
+						var op operation.Operation
+						op, err = x.Put(ctx, fmt.Sprintf("w%d-k%d", w, k), []byte(fmt.Sprintf("value-%d-%d-%d", ri, w, k)))
+						if err == nil {
+							e = op.GetEntry()
+						}
+					case iface.EventLogStore:
+						var op operation.Operation
+						op, err = x.Add(ctx, []byte(fmt.Sprintf("value-%d-%d-%d", ri, w, k)))
+						if err == nil {
+							e = op.GetEntry()
+						}
+					}
+					if err == nil && e != nil {
+						mu.Lock()
+						returned = append(returned, e.GetHash().String())
+						mu.Unlock()
+					}
+				}
+			}(w)
+		}
+		wg.Wait()
+		deadline := time.Now().Add(15 * time.Second)
+		for obs.count(true) < len(returned) && time.Now().Before(deadline) {
+			time.Sleep(2 * time.Millisecond)
+		}
+		s.Settle()
+		close(stop)
+		swg.Wait()
+		_ = sub.Close()
+		var evs []string
+		for _, x := range obs.snapshot() {
+			if x.write {
+				evs = append(evs, fmt.Sprintf("(%s, %s)", sim.CoqN(s.Canon.Hash.ID(x.hashes[0])), sim.CoqBool(x.visible[0])))
+			}
+		}
+		r.AddCase(fmt.Sprintf("(CWritesFree %s %s)", sim.CoqListN(idsOf(s.Canon, returned)), sim.CoqList(evs)),
+			map[string]interface{}{"kind": "free-writers", "sig": "free-writers", "type": typ, "writers": nw, "writes": len(returned), "events": len(evs)}, len(returned) >= 4)
+		r.Count("free-writers:" + typ)
 		s.Close()
 	}
 	return nil
